@@ -60,27 +60,47 @@ impl<'a> Interp<'a> {
         if self.case.sibling_segs > 0 {
             let total = (self.cfg.segment_size.saturating_mul(self.case.sibling_segs as u64)).min(4_000_000);
             let chunk = (self.cfg.segment_size / 2).clamp(16, 4000) as usize;
+            let with_stream = self.has_sibling_stream();
             let n = self.node();
             let r = n.block_on(async {
                 self.cl().create_topic(&sid(), "t2", 1, CompressionAlgorithm::None, None, Some(TOPIC + 1), IggyExpiry::NeverExpire, MaxTopicSize::Unlimited).await?;
-                let t2 = Identifier::numeric(TOPIC + 1).unwrap();
-                let mut sent = 0u64;
-                let mut k = 0u64;
-                while sent < total {
-                    let mut ms = vec![];
-                    for _ in 0..8 {
-                        k += 1;
-                        ms.push(iggy::messages::send_messages::Message::new(None, bytes::Bytes::from(msgs::fill(0x5151_0000 + k, chunk)), None));
-                        sent += chunk as u64;
-                    }
-                    self.cl().send_messages(&sid(), &t2, &Partitioning::partition_id(1), &mut ms).await?;
+                let mut targets = vec![(sid(), Identifier::numeric(TOPIC + 1).unwrap())];
+                if with_stream {
+                    let s2 = Identifier::numeric(STREAM + 1).unwrap();
+                    self.cl().create_stream("s2", Some(STREAM + 1)).await?;
+                    self.cl().create_topic(&s2, "u1", 1, CompressionAlgorithm::None, None, Some(1), IggyExpiry::NeverExpire, MaxTopicSize::Unlimited).await?;
+                    targets.push((s2, Identifier::numeric(1).unwrap()));
                 }
-                Ok::<(), IggyError>(())
+                let mut counts = vec![];
+                for (i, (st, tp)) in targets.iter().enumerate() {
+                    let mut sent = 0u64;
+                    let mut k = 0u64;
+                    // the sibling stream gets a different amount (an odd number of messages) than the sibling topic
+                    let total = if i == 0 { total } else { total / 2 + chunk as u64 };
+                    while sent < total {
+                        let mut ms = vec![];
+                        for _ in 0..(if i == 0 { 8 } else { 5 }) {
+                            k += 1;
+                            ms.push(iggy::messages::send_messages::Message::new(None, bytes::Bytes::from(msgs::fill(0x5151_0000 + k, chunk)), None));
+                            sent += chunk as u64;
+                        }
+                        self.cl().send_messages(st, tp, &Partitioning::partition_id(1), &mut ms).await?;
+                    }
+                    counts.push(k);
+                }
+                Ok::<Vec<u64>, IggyError>(counts)
             });
-            if let Err(e) = r {
-                return Err(self.fail(&prop, "setup", format!("sibling topic: {e}")));
+            match r {
+                Err(e) => return Err(self.fail(&prop, "setup", format!("sibling topic: {e}"))),
+                Ok(c) => {
+                    self.sib_topic_msgs = c[0];
+                    self.sib_stream_msgs = c.get(1).copied().unwrap_or(0);
+                }
             }
             self.out.label("sibling-topic-with-data");
+            if with_stream {
+                self.out.label("sibling-stream-with-data");
+            }
         }
         Ok(())
     }
